@@ -191,7 +191,11 @@ func (c *FeeController) ComputeFeesToDistribute(
 				fees.Values,
 				actiontypes.RecipientAmount{Recipient: addr, Amount: sdk.NewCoins(fee)},
 			)
-			fees.Total = fees.Total.Add(feeAmount)
+			// NOTE: the sum of valid fee amounts can exceed the maximum value of math.Int.
+			fees.Total, err = fees.Total.SafeAdd(feeAmount)
+			if err != nil {
+				return nil, err
+			}
 		}
 	}
 
